@@ -343,7 +343,8 @@ def jobs(tier, seed):
         js.append(("flatpack/3x3", "checks.C10", "run_flatpack", {"rb": 3, "cb": 3}))
     for n in KEY_DEP:
         js.append((f"key-dependence/{n}", "checks.C10", "run_key_dependence", {"name": n}))
-    for gs, na in ([(3, 2)] if tier == "quick" else [(3, 2), (4, 2), (4, 3)]):
+    # 4x4 / 3 agents is the smallest size at which a start cell can be boxed in at initialisation (defect 17, DESIGN 8.4): kept in quick
+    for gs, na in ([(3, 2), (4, 3)] if tier == "quick" else [(3, 2), (4, 2), (4, 3)]):
         js.append((f"connector-walk/{gs}x{na}", "checks.C10", "run_connector_walk", {"gs": gs, "na": na}))
     js.append(("binpack-split/3x2x2/N4/k2", "checks.C10", "run_binpack_split", {"dims": (3, 2, 2), "N": 4, "k": 2}))
     if tier == "thorough":
